@@ -21,6 +21,8 @@ func propC04(c *Ctx) {
 	defer func() {
 		rfr := c.Rule("full-read", "every direct Read on an io.Reader in the decoder uses the byte count returned (a reader may deliver the stream in pieces)", 1)
 		ruleFullRead(c, rfr)
+		rvo := c.Rule("varint-only", "the integer codecs produce their payload with the varint writer only: no byte of it is the truncated value itself", 3)
+		ruleVarintOnly(c, rvo)
 		rsle := c.Rule("search-last-le", "a decoded file set finds the file of a position as the last file whose base is <= the position (strict predicate in the binary search): positions of errors survive the round trip", 1)
 		ruleSearchLastLE(c, rsle)
 		rdf := c.Rule("decode-fresh", "no decoder builds its result in storage read from its receiver: values decoded one after the other never share a backing array", 10)
